@@ -123,6 +123,11 @@ func (i Info) AppendHash(dst []byte, h hash.Hash) []byte {
 	}
 
 	// Hash forms
+	sort.Slice(i.Form, func(a, b int) bool {
+		typeA, _ := i.Form[a].GetString("FORM_TYPE")
+		typeB, _ := i.Form[b].GetString("FORM_TYPE")
+		return typeA < typeB
+	})
 	for _, infoForm := range i.Form {
 		var formType string
 		fields := make([]string, 0, infoForm.Len())
